@@ -28,6 +28,7 @@ struct HookState {
   long unusual_seen = 0;
   long unusual_fired = 0;
   long fatal_errors = 0;
+  bool td_check_delayed_now = false; // neutraliser of KF52 (site td_check_delayed_now)
 };
 HookState &hooks();
 
